@@ -14,7 +14,7 @@ EXPLANATION = ("fast_nonMarkov_SIS is executed symbolically with harness-owned u
                "at that instant (hypothesis: the attempt time differs from the target's change times -- the statement's proviso of "
                "distinct event times), with the attempting node recorded as infector; every non-initial infection is one of the "
                "attempts; nothing else changes a status and nothing is reported at/after tmax.")
-BOUNDS = {'quick': 'graphs K2, P3; all initial sets up to automorphism; <=3 infectious episodes per run; <=2 delays per (episode, neighbour)',
+BOUNDS = {'quick': 'graphs K2, P3 and K2+K1 (isolated node; one delay per pair); all initial sets up to automorphism; <=3 infectious episodes per run; <=2 delays per (episode, neighbour)',
           'thorough': 'adds K3, P4 (<=3 episodes from one initial node, <=2 from several; one delay per pair), P3 from an end node with 2 delays per pair, the two-neighbour configuration with <=4 episodes, K2 with <=4 episodes (larger settings exceeded the path cap)'}
 ASSUMPTIONS = ['floats as reals', 'delay lists ascending and all delays < duration (documented precondition; ascending is what the code relies on)',
                'distinct event times for the infect-iff-susceptible obligation (statement\'s proviso)', 'L2 is not needed here (no randomness)']
@@ -52,6 +52,14 @@ def configs(tier):
                     if g == 'K2' and full:
                         out.append(dict(entry='fast_nonMarkov_SIS', graph=g, I0=I0, R0=[], full=full, form=form, tmax='sym', fxn_args=True,
                                         max_infections=3, delays_per_pair=1, tags=[g, form, 'fxn-args']))
+    # a network with an isolated node: its infection runs its course (recovery at s + duration) without any attempt
+    for I0 in ([2], [0, 2]):
+        for form in ('separate', 'joint', 'recipients'):
+            for full in (True, False):
+                if not full and form != 'separate':
+                    continue
+                out.append(dict(entry='fast_nonMarkov_SIS', graph='K2+K1', I0=I0, R0=[], full=full, form=form, tmax='sym', max_infections=3,
+                                delays_per_pair=1, tags=['K2+K1', form, 'full' if full else 'plain', 'isolated-node']))
     return out
 
 
